@@ -600,13 +600,34 @@ func loopControlOpMunchRight(name string) RightMuncher {
 	return func(env *Zlisp, pr *Pratt) (Sexp, error) {
 		args := []Sexp{env.MakeSymbol(name)}
 		if !pr.IsEOF() {
-			if label, ok := pr.NextToken.(*SexpSymbol); ok {
+			if label, ok := pr.NextToken.(*SexpSymbol); ok && isLoopLabel(env, pr, label) {
 				args = append(args, label)
 				_ = pr.Advance()
 			}
 		}
 		return MakeList(args), nil
 	}
+}
+
+// isLoopLabel reports whether sym, the token after break or continue, is
+// the label of that statement: a plain name standing alone. It is not when
+// it is `else` or another word of the infix grammar, nor when the token
+// after it extends it into an expression (s += i, s[0] = 1, s++ ...):
+// then it begins the next statement.
+func isLoopLabel(env *Zlisp, pr *Pratt, sym *SexpSymbol) bool {
+	if sym.isDot || sym.name == "else" {
+		return false
+	}
+	if _, isOp := env.infixOps[sym.name]; isOp {
+		return false
+	}
+	if pr.Pos+1 < len(pr.Stream) {
+		lbp, err := env.LeftBindingPower(pr.Stream[pr.Pos+1])
+		if err != nil || lbp > 0 {
+			return false
+		}
+	}
+	return true
 }
 
 var arrayOp *InfixOp
